@@ -248,7 +248,12 @@ proof fn lemma_codec_table_patch(w_mid: WritableBuffer, w_pre: WritableBuffer, w
 
 pub proof fn lemma_be32_div_mod(v: u32)
     ensures be32((v / 16777216) as u8, ((v / 65536) % 256) as u8, ((v / 256) % 256) as u8, (v % 256) as u8) == v
-{}
+{
+    let a = v / 16777216; let b = (v / 65536) % 256; let c = (v / 256) % 256; let d = v % 256;
+    assert(a < 256 && b < 256 && c < 256 && d < 256 && a * 16777216 + b * 65536 + c * 256 + d == v) by(bit_vector)
+        requires a == v / 16777216, b == (v / 65536) % 256, c == (v / 256) % 256, d == v % 256;
+    assert((a as u8) as u32 == a && (b as u8) as u32 == b && (c as u8) as u32 == c && (d as u8) as u32 == d);
+}
 
 // ---- RDATA (C04): what the encoder writes for a record's data, and that an independent decoder reads exactly that data back
 pub open spec fn u16b(v: u16) -> Seq<u8> { seq![(v / 256) as u8, (v % 256) as u8] }
